@@ -108,6 +108,45 @@ def run_lattice(case) -> dict:
             "fired": {"envelope_via_rpc": int(source == "dc")}, "probes": probes, "vtime_ns": 0}
 
 
+def _derive_job(job):
+    """One derivation through the library's own functions -> key bytes (see checks.threadpure)."""
+    import dpapi_ng._gkdi as dg
+    from cryptography.hazmat.primitives import hashes
+    from dpapi_ng._blob import KeyIdentifier
+
+    what, k = job
+    hash_name = offline.HASHES[k % 4]
+    rk = offline.synth_root_key(70 + k % 3, hash_name, "DH")
+    alg = {"SHA1": hashes.SHA1, "SHA256": hashes.SHA256, "SHA384": hashes.SHA384, "SHA512": hashes.SHA512}[hash_name]()
+    l0 = 300 + k % 200
+    l1, l2 = (k // 7) % 32, (k // 3) % 32
+    if what == "l1":
+        return bytes(dg.compute_l1_key(SD, rk.root_key_id, l0, rk.key, alg))
+    if what == "ctx":
+        return bytes(dg.compute_kdf_context(rk.root_key_id, l0, l1, l2))
+    cache = offline.new_cache(rk)
+    env = cache._get_key(SD, rk.root_key_id, l0, l1, l2)
+    if what == "l2":
+        return bytes(dg.compute_l2_key(alg, l1, l2, env))
+    kid = KeyIdentifier(version=1, flags=0, l0=l0, l1=l1, l2=l2, root_key_identifier=rk.root_key_id, key_info=hashlib.sha256(b"n%d" % k).digest(),
+                        domain_name="domain.test", forest_name="domain.test")
+    return bytes(env.get_kek(kid))
+
+
+def run_threads(case) -> dict:
+    """["threads", seed, n, policy]: caller threads of one process derive keys at the same time (separate caches)."""
+    import random
+
+    from checks import threadpure
+
+    _, seed, n, policy = case
+    r = random.Random(seed)
+    jobs = [[(r.choice(("kek", "kek", "l2", "l1", "ctx")), r.randrange(100000)) for _ in range(r.randint(2, 5))] for _ in range(n)]
+    world = W.World(seed)
+    with world.installed():
+        return threadpure.run("C02", "derivation", case, jobs, _derive_job, seed, policy)
+
+
 def gen_history(rng, i: int) -> dict:
     hash_name = offline.HASHES[i % 4]
     l1p = rng.choice((0, 1, 31, rng.randrange(32)))
@@ -140,7 +179,12 @@ def gen_history(rng, i: int) -> dict:
     r2 = __import__("random").Random(plan["seed"])
     n_un = rng.randint(2, 6)
     prot_at = r2.randrange(n_un) if r2.random() < 0.5 else -1
+    load_at = r2.randrange(n_un) if (start == "rpc" and r2.random() < 0.3) else -1
     for k_ in range(n_un):
+        if k_ == load_at:
+            # the root key is loaded AFTER a (possibly non-covering) envelope was cached: from here on every position is covered
+            ops.append({"op": "load_key", "rk": 0})
+            plan["root_key_loaded_later"] = True
         if k_ == prot_at:
             # a protect naming the root key in between: served from the cached seed when that covers "now"; whatever it leaves in the
             # cache must still derive every earlier position
@@ -183,6 +227,10 @@ def run_history(plan) -> dict:
                                              f"online unprotect at the envelope's own position ({l1p},{l2p}) against a conforming DC failed: {first.outcome.exc!r}"),
                     "digest": tr.world.digest(), "key": common.key_hash(plan), "fired": {}, "probes": probes, "vtime_ns": 0}
         for ot in tr.ops[1:]:
+            if ot.op["op"] == "load_key":
+                l1p, l2p = 31, 31
+                probes["history_root_key_loaded_later"] = 1
+                continue
             if ot.op["op"] == "protect":
                 if (l1p, l2p) == (31, 31):
                     probes["history_protect_from_seed"] = 1
@@ -227,7 +275,9 @@ class C02(common.Check):
             "key, then get_kek for every covered (L1,L2) compared with the independent MS-GKDI chain and a sample of non-covered positions "
             "that must raise within 300 KDF calls; thorough: all 1024 (L1',L2') x 2 shapes for SHA512 (= the full 32x32 x 32x32 lattice) and a "
             "1/8 sample for the other hashes; quick: 48 (L1',L2') per hash biased to branch corners; (b) API histories [online unprotect at p' / "
-            "load_key -> DC unreachable -> unprotect blobs at p]; (c) Byzantine DC answering with an envelope for an earlier position. "
+            "load_key -> DC unreachable -> unprotect blobs at p, with a cache-served protect and / or a later load_key of the root key in between]; "
+            "(c) Byzantine DC answering with an envelope for an earlier position; (d) 2..4 caller threads of one process deriving keys at "
+            "the same time on separate caches (deterministic thread scheduler): every key must equal the one derived alone. "
             "Each (seed position, requested position, shape, hash) pair counts as one evaluation. Non-trivial = pair with p != p' or a "
             "Byzantine/offline step; distinct = distinct pair / plan.")
     components = {"client": "real (GroupKeyEnvelope.get_kek, compute_l2_key, KeyCache, RPC client for obtaining the envelope, public API in histories)",
@@ -235,7 +285,7 @@ class C02(common.Check):
                   "transport": "simulated; 'DC unreachable' = partition"}
     assumptions = ["the lattice sweep is enumeration of workload parameters through a two-step simulated history; simulation-specific: envelope via RPC, partition, Byzantine reply"]
     required_fired = ("cover_same", "cover_same-l1", "cover_l1-1", "cover_lower", "noncover", "shape_l2_omitted", "shape_l1_absent", "history_cover",
-                      "history_noncover", "history_protect_from_seed", "byzantine_reply", "root_key_reloaded_with_other_parameters", "root_key_with_odd_edge_bytes")
+                      "history_noncover", "history_protect_from_seed", "history_root_key_loaded_later", "thread_cases", "thread_overlap", "byzantine_reply", "root_key_reloaded_with_other_parameters", "root_key_with_odd_edge_bytes")
 
     def exhaustive(self, tier):
         return tier == "thorough"
@@ -263,14 +313,25 @@ class C02(common.Check):
         n_hist = 1200 if tier == "quick" else 40000
         for i in range(n_hist):
             out.append(gen_history(rng, i))
+        from checks import threadpure
+
+        for k in range(300 if tier == "quick" else 15000):
+            out.append(["threads", rng.getrandbits(30), 2 + k % 3, threadpure.policy_for(k, seams=False)])
         return out
 
     def run_case(self, case):
+        if isinstance(case, list) and case[0] == "threads":
+            return run_threads(case)
         if isinstance(case, list):
             return run_lattice(case)
         return run_history(case)
 
     def shrink(self, case):
+        if isinstance(case, list) and case[0] == "threads":
+            from checks import threadpure
+
+            yield from threadpure.shrinks(case, 3, 2, run_threads)
+            return
         if isinstance(case, dict):
             ops = case["ops"]
             for i in range(1, len(ops)):
@@ -281,6 +342,8 @@ class C02(common.Check):
                     yield dict(case, ops=ops[:i] + [dict(o, fl="sync")] + ops[i + 1 :])
 
     def sample_repr(self, case, res):
+        if isinstance(case, list) and case[0] == "threads":
+            return dict(zip(("kind", "seed", "n_threads", "policy"), case))
         if isinstance(case, list):
             return dict(zip(("kind", "hash", "seed_source", "l1'", "l2'", "l2_key_omitted", "root_key_first_last_byte"), case))
         return {"kind": case["kind"], "seed_position": case.get("seedpos"), "byz": case["dc"].get("byz"),
